@@ -65,7 +65,23 @@ class Model:
 
             def star(name, *args):
                 return rec('catch', '/', name, args)
+        # a handler that fails with TypeError for one particular payload
+        # (sync on the threaded client and on the plain asyncio variant,
+        # coroutine on the coroutine variant)
+        if coro:
+            async def te(*args):
+                w.log.append(('te', '/', 'te', list(args)))
+                if args and args[0] == 'bad':
+                    raise TypeError('scripted TypeError in the handler')
+                return 'ok'
+        else:
+            def te(*args):
+                w.log.append(('te', '/', 'te', list(args)))
+                if args and args[0] == 'bad':
+                    raise TypeError('scripted TypeError in the handler')
+                return 'ok'
         c.on('h', h)
+        c.on('te', te)
         c.on('*', star)
         base = socketio.AsyncClientNamespace if self.is_async else \
             socketio.ClientNamespace
@@ -326,6 +342,20 @@ class Model:
                         k += 1
                         self._one_event(w, ns, name, id, args, ret)
                         n += 1
+        # a handler that raises TypeError is invoked once, with all the
+        # arguments, and its event is not acknowledged with a made-up value
+        for args, want_ack in ((['fine', 2], [('pkt', 3, '/', 7, ['ok'])]),
+                               (['bad', 2], [])):
+            w.deliver_packet(2, '/', 7, ['te'] + args)
+            log = w.take_log()
+            frames = [f for f in w.take_outbox() if f[0] != 'eio']
+            w.task_errors.clear()
+            if w.loop is not None:
+                w.loop.collect_errors()
+            if log != [('te', '/', 'te', args)] or frames != want_ack:
+                self._bad(w, 'handler-fault', f'event te{args!r} id=7: '
+                          f'handler log {log!r}, client sent {frames!r} '
+                          f'(expected one invocation and {want_ack!r})')
         # a BINARY_EVENT that announces zero attachments is complete as it
         # stands (the reference parser dispatches it at once)
         w.script['ret'] = 'z'
@@ -479,6 +509,8 @@ def run(tier, seed, result):
         notes.append(f'async={is_async} coro={coro}: {st}')
     from . import c09_sched
     notes.append(c09_sched.run(tier, seed, result))
+    from . import c06_ack_threads
+    notes.append(c06_ack_threads.run(tier, seed, result, 'client'))
     n = call_in_handler(result)
     result.add('call_in_handler_scenarios', n)
     notes.append(f'call() inside a handler (text/binary event, both '
